@@ -100,6 +100,7 @@ pub fn take_pool(mut f: impl FnMut(u64) -> bool) -> Vec<Event> {
 #[derive(Debug)]
 pub struct OpGuard {
     id: u64,
+    owner: std::thread::ThreadId,
 }
 
 impl OpGuard {
@@ -108,7 +109,10 @@ impl OpGuard {
     pub fn new() -> Self {
         let id = NEXT_ID.fetch_add(1, Ordering::SeqCst);
         log(Kind::Alloc, id);
-        Self { id }
+        Self {
+            id,
+            owner: std::thread::current().id(),
+        }
     }
 
     /// The operation id.
@@ -119,7 +123,13 @@ impl OpGuard {
 
 impl Drop for OpGuard {
     fn drop(&mut self) {
-        log(Kind::Free, self.id);
+        // Storage released on another thread (e.g. a pool thread holding the last reference
+        // after the driver is gone) goes to the shared log, where the harness can read it.
+        if std::thread::current().id() == self.owner {
+            log(Kind::Free, self.id);
+        } else {
+            log_pool(Kind::Free, self.id);
+        }
     }
 }
 
